@@ -219,6 +219,12 @@ def run(ctx):
                     for a2, b2 in parts:
                         cost = (b2 - a2 + 1) * (p['nops'] + (L * 40) // max(1, a2 - RSV))
                         mlines.append((p, 'sweep', (a, b, a2, b2), 'sweep %s f %d %d %d %d %d %s' % (var, a2, b2, ind, fl & 1, (fl >> 1) & 1, p['tok']), cost))
+            if c.sweep and not skip_buffers and p['noerr']:
+                # the same fixed buffers finished through flatcc_json_printer_finalize(), around the size where its newline no longer fits
+                fa, fb = max(lo, L + RSV - 3), L + RSV + 6
+                cl.append('finsweep %d %d %d %d' % (fl, ind, fa, fb)); metas.append(('finsweep', p, (fa, fb)))
+            if c.file and p['noerr']:
+                cl.append('filefin %d %d' % (fl, ind)); metas.append(('filefin', p, None))
             if c.dyn and not skip_buffers:
                 sizes = sorted(set([0, 1, RSV - 1, RSV, RSV + 1, RSV + 2, RSV + 3, 100, 128, 4096, max(1, L), L + RSV - 1, L + RSV, L + RSV + 1] +
                                    [rng.randint(1, L + 2 * RSV) for _ in range(6 if ctx.thorough else 2)]))
@@ -434,6 +440,34 @@ def run(ctx):
             cr = U.parse_c(cr)
             if cr is None: continue
             if oracle(c, p, 'fixed', sz, cr, 'sweep %d %d %d %d' % (p['fl'], p['ind'], sz, sz)): bad_sizes.add((pid_, sz))
+    # finalize(): implementation-side oracle only (the model has no finalize operation)
+    for kind_key, val in list(impl.items()):
+        pid_, kind, meta = kind_key
+        if kind not in ('finsweep', 'filefin'): continue
+        p = plan_by_id[pid_]; c = p['case']
+        reply, line = val[0], val[1]
+        refr = impl.get((pid_, 'ref', None)); rf = refr[0].split() if refr else None
+        if rf is None or rf[0] != 'R' or int(rf[1]) < 0 or int(rf[3]) or int(rf[4]): continue
+        L = p['L']
+        if kind == 'filefin': sizes, recs = [None], [reply]
+        else: sizes, recs = list(range(meta[0], meta[1] + 1)), reply.split(' ')
+        ctx.count('%s|%d|%d|%s' % (c.json[:48].hex(), p['fl'], p['ind'], kind), klass=('finalize-fixed:' if kind == 'finsweep' else 'finalize-file:') + c.klass, n=len(recs))
+        for sz, rec in zip(sizes, recs):
+            cr = U.parse_c(rec)
+            if cr is None: continue
+            one = 'finsweep %d %d %d %d' % (p['fl'], p['ind'], sz, sz) if sz is not None else line
+            if cr['hang'] or cr['over'] > 0:
+                ctx.violation('finalize-unsafe', 'printing and flatcc_json_printer_finalize() %s: %s buffer %s, flags %d indent %d, text length %d, class %s' % (
+                    'do not return' if cr['hang'] else 'store %d bytes outside the buffer' % (cr['over'] % 1000000), 'fixed' if sz is not None else 'file', sz, p['fl'], p['ind'], L, c.klass), replay_of(c, p, one))
+                continue
+            want = True if sz is None else (L + 1 < sz - RSV)
+            what = 'flatcc_json_printer_finalize() after printing %d bytes into %s, flags %d indent %d, class %s' % (L, 'a fixed buffer of %d bytes' % sz if sz is not None else 'a file', p['fl'], p['ind'], c.klass)
+            if (cr['ret'] >= 0) != want:
+                ctx.violation('finalize-success-iff-fits', '%s returned %d although the text and its newline (%d bytes) %s' % (
+                    what, cr['ret'], L + 1, 'fit below size - reserve' if want else 'do not fit below size - reserve = %d: success reported for a truncated / discarded text' % (sz - RSV)),
+                    replay_of(c, p, one))
+            elif cr['ret'] >= 0 and not cr['ok']:
+                ctx.violation('finalize-output', '%s returned %d but the output is not the reference text plus a newline of that length' % (what, cr['ret']), replay_of(c, p, one))
     for (p, kind, meta, mline, cost), mr in zip(mlines, mres):
         c = p['case']
         if kind == 'dynsweep':
@@ -654,6 +688,11 @@ def make_cases(ctx, rng, RSV, FLUSH):
     add('number-run', {'i': 7, 'd': -2.2250738585072014e-308, 'u64': 1}, flagsets=[(0, 0), (0, 1), (0, 2), (1, 1), (1, 0)])
     add('number-run', {'dv': [-1.2345678901234567e-200, 5e-324, -4.9406564584124654e-324], 'd': -1.7976931348623157e308, 's': b'x'}, flagsets=[(0, 0), (0, 1), (1, 3)])
     add('number-run', {'t': {'d': -2.2250738585072014e-308}, 'tv': [{'d': -2.2250738585072014e-308}, {'d': -1.2345678901234567e-200, 'i': 1}]}, flagsets=[(0, 0), (0, 1)])
+    # vectors of maximal-length numbers (24-character doubles, 20-character integers): every element needs its own flush check
+    LONGD = [-2.2250738585072014e-308, -1.7976931348623157e308, -1.2345678901234567e-200, -4.9406564584124654e-324, -1.1125369292536007e-308, -8.98846567431158e+307 * 1.9999999999999998]
+    for n in ((3, 4, 7, 40) if not T else (3, 4, 5, 6, 7, 10, 20, 40)):
+        add('long-number-vector', {'dv': [LONGD[i % len(LONGD)] for i in range(n)]}, flagsets=[(0, 0), (1, 0)] + ([(0, 1)] if n in (3, 7) else []))
+        add('long-number-vector', {'iv': [-9223372036854775808 + i for i in range(n)], 'dv': [LONGD[(i + 2) % len(LONGD)] for i in range(n)]}, flagsets=[(0, 0)])
     # a field of enum type whose 31-character name and 31-character symbol are printed back to back (two symbols, no check between)
     add('enum-long-name', {U.F31: 9, 'i': 5}, flagsets=[(0, 0), (0, 1), (1, 0), (8, 0), (1, 2)])
     add('enum-long-name', {'s': b'abc', 'tv': [{U.F31: 9}, {U.F31: 9, 'e': 9}], 'ev': [9, 9, 9], U.F31: 9}, flagsets=[(0, 0), (0, 2), (1, 0)])
